@@ -174,8 +174,18 @@ def build_traces(path, tier, seed):
         n = int(rng.integers(1, 60))
         vv = rng.standard_normal(n)
         sh = [int(t) for t in rng.integers(-8, 9, size=int(rng.integers(1, 5)))]
-        clip = ["none", "start", "end", "both"][i % 4]
-        out = ts.put_array_in_2d_array(vv, np.array(sh), clip=clip)
+        clip = ["none", "start", "end", "both"][int(rng.integers(4))]
+        # the offsets in the integer types a caller may hold them in (narrow and unsigned ones when they fit)
+        form = int(rng.integers(6))
+        if form == 4:
+            n = int(rng.integers(100, 200))        # a record longer than an int8 can count
+            vv = rng.standard_normal(n)
+        if form in (3,) and min(sh) < 0:
+            sh = [abs(t) for t in sh]
+        if form == 3 and min(sh) == 0 and rng.integers(2):
+            sh = [t + 1 for t in sh]               # unsigned offsets that are all positive
+        sh_arg = np.array(sh, dtype=[np.int64, np.int32, np.int16, np.uint8, np.int8, np.int64][form])
+        out = ts.put_array_in_2d_array(vv, sh_arg, clip=clip)
         add({"kind": "put2d", "v": enc_seq(vv), "shifts": sh, "clip": clip, "out": [enc_seq(r) for r in out]}, {"kind": "put2d", "n": n, "shifts": sh, "clip": clip})
         shp = [abs(t) for t in sh]
         dt = 0.01
